@@ -242,7 +242,7 @@ def model_check(ctx, name, module, consts, invariants=(), properties=(), init="I
     else:
         kw["init"] = init
         kw["next_"] = next_
-    r = tlc(ctx, "mc-" + name, module, kw, env=e, workers=workers, timeout=timeout)
+    r = tlc(ctx, "mc-" + name, module, kw, env=e, workers=workers, timeout=timeout, heap="16g")
     if not r["ok"]:
         raise MachineryError("step 1 (TLC on %s) did not complete cleanly:\n%s" % (module, tlc_error_excerpt(r["out"])))
     if cases_file:
@@ -313,7 +313,7 @@ def _validate_chunk(args):
     c = dict(consts or {})
     c["Dev"] = set(tla_str(x) for x in dev)
     r = tlc(ctx, sub, module, dict(spec="TraceSpec", consts=c), env={"TRACE_FILE": tf}, workers=1, timeout=timeout,
-            quiet=True)
+            quiet=True, heap="4g")
     m = _RESULT.search(r["out"])
     if not r["ok"] or not m:
         raise MachineryError("trace validation run failed (%s chunk %d):\n%s" % (module, idx, tlc_error_excerpt(r["out"])))
@@ -398,7 +398,7 @@ class Verdict:
         self.total_violating = 0
 
 
-def classify_rejections(ctx, pid, module, harness_bin, harness_cmd, bad, scns, consts=None, max_examine=5000,
+def classify_rejections(ctx, pid, module, harness_bin, harness_cmd, bad, scns, consts=None, max_examine=200000,
                         extra_args=(), reexec=None, max_report=25):
     """Step 4: re-run the rejected scenarios on the real code (one batch), keep those rejected again, then
     re-validate them with each known deviation switched on."""
